@@ -160,8 +160,8 @@ def ift2(G, delta_f, FFT=None):
     # centre sample to index 0 before the transform (ifftshift), back to the
     # centre afterwards (fftshift); the two shifts only coincide for even N
     if FFT:
-        g = numpy.fft.fftshift(FFT(numpy.fft.ifftshift(G))) * (N * delta_f) ** 2
+        g = numpy.fft.fftshift(FFT(numpy.fft.ifftshift(G))) * N * delta_f * N * delta_f
     else:
-        g = fft.fftshift(fft.ifft2(fft.ifftshift(G))) * (N * delta_f) ** 2
+        g = fft.fftshift(fft.ifft2(fft.ifftshift(G))) * N * delta_f * N * delta_f
 
     return g
